@@ -369,6 +369,11 @@ impl Config {
         self.sync_port = args.sync_port;
         self.leader_address = args.leader_address.clone();
         self.instance_name = args.instance_name.clone();
+        // cluster nodes always persist their data (load_env applies the same rule, but it runs
+        // before the role is known from the command line)
+        if self.follower || self.leader {
+            self.use_persistence = true;
+        }
     }
 
     pub fn persistence_interval(&self) -> Interval {
